@@ -333,6 +333,26 @@ AUDITED_LOOPS = {
 NOT_REACHABLE = {"mod_daemon", "build_types", "stationpedia", "__main__"}  # not on the compile_code path
 
 
+def _is_parent_walk(loop):
+    """v = v.parent (directly or through one local) unconditionally in the body, no continue: bounded by the tree depth."""
+    if any(isinstance(x, ast.Continue) for x in ast.walk(loop)) or loop.orelse:
+        return False
+    names = {x.id for x in ast.walk(loop.test) if isinstance(x, ast.Name)}
+    locals_parent = {}
+    for st in loop.body:
+        if isinstance(st, ast.Assign) and len(st.targets) == 1 and isinstance(st.targets[0], ast.Name):
+            tgt, val = st.targets[0].id, st.value
+            t = norm(val)
+            for v in names:
+                if t == f"{v}.parent":
+                    if tgt == v:
+                        return True
+                    locals_parent[tgt] = v
+            if tgt in names and isinstance(val, ast.Name) and locals_parent.get(val.id) == tgt:
+                return True
+    return False
+
+
 def r10e(repo, chk):
     for mn in repo.module_names():
         if mn in ("structures_generated", "types_generated") or mn in NOT_REACHABLE:
@@ -346,6 +366,9 @@ def r10e(repo, chk):
             key = f"{mn}:{q}:while {norm(loop.test)[:60]}"
             where = f"{m.path}:{loop.lineno} in {q}"
             kind = AUDITED_LOOPS.get((mn, q))
+            if kind is None and _is_parent_walk(loop):
+                chk.ok("R10.e", key + " [recognised: walk up the parent chain]", {"kind": "parent (auto)"})
+                continue
             if kind is None:
                 chk.bad("R10.e", key, "while loop on the compile_code path that is not in the audited inventory (termination not argued)", None, where)
                 continue
